@@ -323,8 +323,10 @@ fn fuzz(a: &Args) {
     let mut out = Out::file(a.req("out"));
     let mut rng = Rng::new(a.num("seed", 1));
     let n = a.num("cases", 2000);
-    let frags: [&[u8]; 30] = [b"/F#41 1 Tf ", b"/Im#2", b"/A#", b"#", b"/N#4", b"/#zz ", b"BT ", b"ET ", b"(abc) Tj ", b"[(a) -120 (b)] TJ ", b"/F1 12 Tf ", b"1 0 0 1 10 20 cm ", b"q ", b"Q ", b"BI /W 2 /H 2 /BPC 8 /CS /G ID ",
-                              b"\x00\x01\x02\x03 EI ", b"<48656C6C6F> Tj ", b"/P <</MCID 0>> BDC ", b"EMC ", b"0.5 g ", b"10 20 m ", b"(", b")", b"<<", b">>", b"[", b"]", b"\\", b"%c\n", b"1e9999 "];
+    let frags: [&[u8]; 38] = [b"/F#41 1 Tf ", b"/Im#2", b"/A#", b"#", b"/N#4", b"/#zz ", b"BT ", b"ET ", b"(abc) Tj ", b"[(a) -120 (b)] TJ ", b"/F1 12 Tf ", b"1 0 0 1 10 20 cm ", b"q ", b"Q ", b"BI /W 2 /H 2 /BPC 8 /CS /G ID ",
+                              b"\x00\x01\x02\x03 EI ", b"<48656C6C6F> Tj ", b"/P <</MCID 0>> BDC ", b"EMC ", b"0.5 g ", b"10 20 m ", b"(", b")", b"<<", b">>", b"[", b"]", b"\\", b"%c\n", b"1e9999 ",
+                              // the pieces of an inline image on their own: data of any length, none included, any separator
+                              b"BI ", b"ID ", b"ID\n", b"ID\r\n", b"EI ", b"EI", b"ID EI ", b"BI /W 1 /H 1 ID\nEI Q "];
     let (tx, rx) = std::sync::mpsc::channel::<(u64, Vec<u8>)>();
     let (dtx, drx) = std::sync::mpsc::channel::<(u64, String)>();
     std::thread::spawn(move || {
